@@ -143,7 +143,7 @@ package client
 //@   at Pubrec.0 before assert [C25] entry_wf: clEntryWF(c, box(*publishQOS2Transaction, arg(0)))
 //@   at Pubcomp.0 before assert [C25] entry_wf: clEntryWF(c, box(*publishQOS2Transaction, arg(0)))
 //@   at Pubrel.0 before assert [C25] entry_wf: clEntryWF(c, box(*brokerPublishQOS2Transaction, arg(0)))
-//@   at Store.0 before assert [C06] never_replaces_an_exchange: !(arg(1) in c.transactions.bypktID)
+//@   at Store.0 before check [C06] never_replaces_an_exchange: !(arg(1) in c.transactions.bypktID)
 //@   at Publish.0 before assert [C25] entry_base: clBp2Entry(c, arg(0))
 //@   at Publish.0 after assert [C25] entry_wf_now: clEntryWF(c, box(*brokerPublishQOS2Transaction, arg(0)))
 //@   at Pubrec.0 after assert [C25] entry_still_wf: clEntryWF(c, box(*publishQOS2Transaction, arg(0)))
@@ -176,7 +176,7 @@ package client
 //@   assigns *
 //@   let w0 = old(c.tryN)
 //@   at Store.0 before let tx = arg(2)
-//@   at Store.0 before assert [C06] no_gateway_exchange_replaced: !(arg(1) in c.transactions.bypktID) || !(istype(c.transactions.bypktID[arg(1)], *brokerPublishQOS2Transaction) && !finished(c.transactions.bypktID[arg(1)].(*brokerPublishQOS2Transaction).TransactionBase))
+//@   at Store.0 before check [C06] no_gateway_exchange_replaced: !(arg(1) in c.transactions.bypktID) || !(istype(c.transactions.bypktID[arg(1)], *brokerPublishQOS2Transaction) && !finished(c.transactions.bypktID[arg(1)].(*brokerPublishQOS2Transaction).TransactionBase))
 //@   at Store.0 before assert [C25] new_entry_wf: clEntryWF(c, arg(2)) && clOwns(arg(2))
 //@   at Store.0 before assert [C17] held_for_retransmission: istype(clRtOf(arg(2)).Data, *pkts1.Publish) && wfFromClient(clRtOf(arg(2)).Data) &&
 //@      clRtOf(arg(2)).State == box(transactionState, ite(qos == 1, 1, 2))
@@ -206,7 +206,7 @@ package client
 //@   rely [C17] traces_append_only: c.tryN >= old(c.tryN) && (forall i int :: i < old(c.tryN) ==> c.try[i] == old(c.try[i]))
 //@   assigns *
 //@   at Store.0 before let tx = arg(2)
-//@   at Store.0 before assert [C06] no_gateway_exchange_replaced: !(arg(1) in c.transactions.bypktID) || !(istype(c.transactions.bypktID[arg(1)], *brokerPublishQOS2Transaction) && !finished(c.transactions.bypktID[arg(1)].(*brokerPublishQOS2Transaction).TransactionBase))
+//@   at Store.0 before check [C06] no_gateway_exchange_replaced: !(arg(1) in c.transactions.bypktID) || !(istype(c.transactions.bypktID[arg(1)], *brokerPublishQOS2Transaction) && !finished(c.transactions.bypktID[arg(1)].(*brokerPublishQOS2Transaction).TransactionBase))
 //@   at Store.0 before assert [C25] new_entry_wf: clEntryWF(c, arg(2)) && clOwns(arg(2))
 //@   at send.0 before assert [C17] first_transmission: istype(arg(1), *pkts1.Subscribe) && !arg(1).(*pkts1.Subscribe).DUPProperty.dup &&
 //@      arg(1).(*pkts1.Subscribe).QOS == qos && arg(1).(*pkts1.Subscribe).TopicIDType == topicIDType && arg(1).(*pkts1.Subscribe).TopicID == topicID &&
@@ -224,7 +224,7 @@ package client
 //@   rely [C25] exchange_structure_immutable: clEntryWF(c, tx)
 //@   at Store.0 before let tx = arg(2)
 //@   assigns *
-//@   at Store.0 before assert [C06] no_gateway_exchange_replaced: !(arg(1) in c.transactions.bypktID) || !(istype(c.transactions.bypktID[arg(1)], *brokerPublishQOS2Transaction) && !finished(c.transactions.bypktID[arg(1)].(*brokerPublishQOS2Transaction).TransactionBase))
+//@   at Store.0 before check [C06] no_gateway_exchange_replaced: !(arg(1) in c.transactions.bypktID) || !(istype(c.transactions.bypktID[arg(1)], *brokerPublishQOS2Transaction) && !finished(c.transactions.bypktID[arg(1)].(*brokerPublishQOS2Transaction).TransactionBase))
 //@   at Store.0 before assert [C25] new_entry_wf: clEntryWF(c, arg(2)) && clOwns(arg(2))
 //@   ensures [C25] keeps_lite: cLite(c)
 //@   ensures [C25] keeps_handlers: handlersWF(c.messageHandlers)
@@ -239,7 +239,7 @@ package client
 //@   rely [C25] exchange_structure_immutable: clEntryWF(c, tx)
 //@   at Store.0 before let tx = arg(2)
 //@   assigns *
-//@   at Store.0 before assert [C06] no_gateway_exchange_replaced: !(arg(1) in c.transactions.bypktID) || !(istype(c.transactions.bypktID[arg(1)], *brokerPublishQOS2Transaction) && !finished(c.transactions.bypktID[arg(1)].(*brokerPublishQOS2Transaction).TransactionBase))
+//@   at Store.0 before check [C06] no_gateway_exchange_replaced: !(arg(1) in c.transactions.bypktID) || !(istype(c.transactions.bypktID[arg(1)], *brokerPublishQOS2Transaction) && !finished(c.transactions.bypktID[arg(1)].(*brokerPublishQOS2Transaction).TransactionBase))
 //@   at Store.0 before assert [C25] new_entry_wf: clEntryWF(c, arg(2)) && clOwns(arg(2))
 //@   ensures [C25] keeps_lite: cLite(c)
 //@   ensures [C25] keeps_handlers: handlersWF(c.messageHandlers)
